@@ -59,6 +59,25 @@ const (
 	carriedValue
 )
 
+// planListType reports whether t is a list of plan records: a slice of them, or a struct (or a pointer to one) that
+// wraps such a slice.
+func planListType(t types.Type) bool {
+	if p, ok := t.Underlying().(*types.Pointer); ok {
+		t = p.Elem()
+	}
+	switch u := t.Underlying().(type) {
+	case *types.Slice:
+		return planRecordType(u.Elem())
+	case *types.Struct:
+		for i := 0; i < u.NumFields(); i++ {
+			if sl, ok := u.Field(i).Type().Underlying().(*types.Slice); ok && planRecordType(sl.Elem()) {
+				return true
+			}
+		}
+	}
+	return false
+}
+
 // carriedIn classifies how the local v (declared outside loop) is written inside loop.
 func carriedIn(m *core.Model, f *core.Func, loop ast.Stmt, v *types.Var) (carriedKind, token.Pos) {
 	if v.Pos() >= loop.Pos() && v.Pos() < loop.End() {
@@ -376,7 +395,7 @@ func c06r10(c *core.Ctx) {
 					if v.Pos() >= recLoop.Pos() && v.Pos() < recLoop.End() {
 						continue
 					}
-					if vt, ok := v.Type().Underlying().(*types.Slice); ok && planRecordType(vt.Elem()) {
+					if planListType(v.Type()) {
 						continue
 					}
 					kind, at := carriedIn(m, f, pl, v)
